@@ -2,7 +2,10 @@
      _tensor_product_shape, _parse_dims_arg, tensor (binary-tree reduction), tensor_insert (with its
      inner _tensor_insert_subscripts / single_tensor_insert and the position / dimension bookkeeping
      loop), tensor_merge, tensor_transpose.
-   Arrays are n-dimensional integer arrays (shape : list nat, data : list Z in row-major order).
+   Arrays are n-dimensional arrays (shape : list nat, data : list T in row-major order) over an arbitrary
+   entry type T with operations [Entry T] (zero, one, add, mul); the laws needed by the theorems are
+   [EntryLaws T].  The instance for Z ([Zentry], abbreviation [arr] = [garr Z]) is the one evaluated by the
+   exhaustive correspondence check.
    numpy primitives used by the code (reshape, transpose, einsum with a leading ellipsis on two
    operands) are modelled by small evaluators on letter lists (letters are natural numbers:
    string.ascii_letters[k] is letter k).  Python exceptions are values of [exn].
@@ -19,7 +22,23 @@ Definition bind {A B} (x : res A) (f : A -> res B) : res B :=
   match x with Ok a => f a | Err e => Err e end.
 Notation "'do' x <- a ; b" := (bind a (fun x => b)) (at level 200, x name, a at level 100, b at level 200).
 
-Record arr := mkArr { shp : list nat; dat : list Z }.
+(* entries: the operations used by the code (einsum: multiply and sum) ... *)
+Class Entry (T : Type) := { ezero : T; eone : T; eadd : T -> T -> T; emul : T -> T -> T }.
+(* ... and the laws used by the proofs: a commutative monoid under multiplication, zero neutral for sums *)
+Class EntryLaws (T : Type) {E : Entry T} := {
+  eadd_0_r : forall x : T, eadd x ezero = x;
+  emul_assoc : forall x y z : T, emul x (emul y z) = emul (emul x y) z;
+  emul_comm : forall x y : T, emul x y = emul y x;
+  emul_1_l : forall x : T, emul eone x = x }.
+
+Record garr (T : Type) := mkArr { shp : list nat; dat : list T }.
+Arguments mkArr {T} shp dat.
+Arguments shp {T} g.
+Arguments dat {T} g.
+
+Section Generic.
+Context {T : Type} {E : Entry T}.
+Local Notation arr := (garr T).
 
 (* ------------------------------------------------------------------ index arithmetic *)
 Definition prodn (l : list nat) : nat := fold_right Nat.mul 1 l.
@@ -39,10 +58,10 @@ Fixpoint indices (shape : list nat) : list (list nat) :=
   | d :: s' => flat_map (fun i => map (cons i) (indices s')) (seq 0 d)
   end.
 
-Definition aget (a : arr) (idx : list nat) : Z := nth (ravel (shp a) idx) (dat a) 0%Z.
+Definition aget (a : arr) (idx : list nat) : T := nth (ravel (shp a) idx) (dat a) ezero.
 
 (* array given by a function of the multi-index *)
-Definition tabulate (shape : list nat) (f : list nat -> Z) : arr :=
+Definition tabulate (shape : list nat) (f : list nat -> T) : arr :=
   mkArr shape (map f (indices shape)).
 
 (* Python slices with non-negative bounds: s[a:b], s[:n], s[n:] *)
@@ -116,7 +135,7 @@ Fixpoint nodup_nat (l : list nat) : list nat :=
   | [] => []
   | x :: t => if existsb (Nat.eqb x) t then nodup_nat t else x :: nodup_nat t
   end.
-Definition zsum (l : list Z) : Z := fold_right Z.add 0%Z l.
+Definition zsum (l : list T) : T := fold_right eadd ezero l.
 
 (* np.einsum('...<la>,...<lb>->...<lo>', A, B) *)
 Definition einsum2 (la lb lo : list nat) (A B : arr) : res arr :=
@@ -137,8 +156,8 @@ Definition einsum2 (la lb lo : list nat) (A B : arr) : res arr :=
   do sshape <- letter_dims ls ds sl;
   let env := fo ++ sl in
   Ok (tabulate oshape (fun oi =>
-        zsum (map (fun si => (aget A (gather env (oi ++ si) fa (shp A)) *
-                              aget B (gather env (oi ++ si) fb (shp B)))%Z)
+        zsum (map (fun si => emul (aget A (gather env (oi ++ si) fa (shp A)))
+                                   (aget B (gather env (oi ++ si) fb (shp B))))
                   (indices sshape)))).
 
 (* ndarray.transpose(axes): negative axes are normalised, repeated / out-of-range axes and a wrong
@@ -388,3 +407,16 @@ Definition tensor_transpose (rank : nat) (a : arr) (order : list Z) (arr_dims : 
   do arr_r <- reshape a (lead rank (shp a) ++ concat arr_dims);
   do t <- transpose arr_r (transpose_axes rank ndim nb order);
   reshape t (shp a).
+End Generic.
+
+(* ------------------------------------------------------------------ the integer instance *)
+#[global] Instance Zentry : Entry Z := { ezero := 0%Z; eone := 1%Z; eadd := Z.add; emul := Z.mul }.
+#[global] Instance Zlaws : EntryLaws Z.
+Proof.
+  constructor; intros; unfold eadd, emul, ezero, eone, Zentry.
+  - apply Z.add_0_r.
+  - apply Z.mul_assoc.
+  - apply Z.mul_comm.
+  - apply Z.mul_1_l.
+Qed.
+Notation arr := (garr Z).
